@@ -474,6 +474,8 @@ def file_replacement(rp, binp, sc, tier):
     if thorough:
         inputs["fmt"] += [("select c%d, c%d + 1 from t%d where c%d > %d;\n" % (i, i + 1, i, i, i)).encode() * (1 + i % 3) for i in range(6)]
         inputs["lint"] += [("select  c%d from   t%d   \n" % (i, i)).encode() * (1 + i) for i in range(6)]
+        inputs["fmt"].append(b"".join(b"select c%d, c%d + 1 as next_c, 'text %d' as label from table_%d where c%d between %d and %d;\n" % (i, i, i, i, i, i, i + 10) for i in range(24)))
+        inputs["lint"].append(b"".join(b"select  c%d,   c%d from   table_%d where c%d = %d   \n" % (i, i + 1, i, i, i) for i in range(40)))
     jobs, pairs = [], []
     for w in ("fmt", "lint"):
         for old in inputs[w]:
@@ -984,6 +986,16 @@ def build_scenarios(tier, rng):
             for strict in (False, True):
                 add("validate", "inline", [t], fmt=fmt, strict=strict)
     add("validate", "none", [])
+    if tier != "quick":
+        for t in rng.sample(pool, 60):
+            add("validate", "stdin", [t], fmt=rng.choice([None, "json", "sarif"]), strict=rng.random() < 0.5)
+            add("format", "stdin", [t], **rng.choice([dict(), dict(check=True), dict(compact=True), dict(no_uppercase=True, check=True)]))
+            add("lint", "stdin", [t], **rng.choice([dict(), dict(fix=True), dict(failwarn=True)]))
+            add("parse", "stdin", [t], **rng.choice([dict(), dict(fmt="json"), dict(tokens=True)]))
+            if looks_like_sql(t) and len(t) < 200 and "\0" not in t:
+                add("validate", "inline", [t], fmt=rng.choice([None, "json", "sarif"]), strict=rng.random() < 0.5)
+                add("format", "inline", [t], **rng.choice([dict(), dict(check=True), dict(compact=True)]))
+                add("parse", "inline", [t], **rng.choice([dict(), dict(fmt="json")]))
     # format
     fsets = sets + [[lib_fixed] for lib_fixed in ["SELECT\n1", "SELECT\n1\n"]]
     fflags = [dict(), dict(inplace=True), dict(check=True), dict(inplace=True, check=True), dict(output="out.sql"),
@@ -1095,8 +1107,10 @@ def report_matrix(rp, scenarios, results, failures, mism, okc):
     rp.obligation("oracle: exit status / writes / reports of the real binary agree with the library verdicts on %d runs" % len(scenarios), not failures)
     rp.obligation("correspondence: Coq verdict model = real binary (status, files written, stdout, report) on %d runs" % len(scenarios), okc and not mism)
     seen = set()
+    # one replay per (command, input kind, kind of failure): the smallest failing scenario (fewest inputs, fewest flags, shortest texts)
+    failures = sorted(failures, key=lambda f: (len(f[0]["texts"]), sum(1 for v in f[0]["flags"].values() if v), sum(len(t or "") for t in f[0]["texts"])))
     for sc, r, bad in failures:
-        sig = (sc["cmd"], sc["kind"], tuple(sorted(k for k, v in sc["flags"].items() if v)), bad[0][:40])
+        sig = (sc["cmd"], sc["kind"], re.sub(r"[\d\[\]]+.*$", "", bad[0])[:40])
         if sig in seen:
             continue
         seen.add(sig)
